@@ -601,6 +601,10 @@ fn c14_named_shapes() {
         (4, vec![J::Is(0, T::Fix(1, 1000)), J::Is(0, T::Fix(2, 1000)), J::Is(1, w(64, WordUse::UnsignedNumeric)), J::Is(3, T::Any)]),
         (4, vec![J::Is(0, T::Fix(1, 1003)), J::Is(3, T::Fix(2, 1003)), J::Eq(0, 3), J::Is(2, w(160, WordUse::Address))]),
         (3, vec![J::Is(0, T::Fix(1, 1004)), J::Is(0, T::Fix(2, 1004))]),
+        // ... and of the smallest lengths (0, 1)
+        (4, vec![J::Is(0, T::Fix(1, 0)), J::Is(0, T::Fix(2, 0)), J::Is(1, w(64, WordUse::UnsignedNumeric)), J::Is(3, T::Any)]),
+        (4, vec![J::Is(0, T::Fix(1, 0)), J::Is(3, T::Fix(2, 0)), J::Eq(0, 3), J::Is(2, T::Dyn(1))]),
+        (3, vec![J::Is(0, T::Fix(1, 1)), J::Is(0, T::Fix(2, 1)), J::Is(2, w(160, WordUse::Address))]),
         // towers of nested constructors equated at the top: every level needs its own round of the fixpoint
         (50, { let mut v = vec![J::Eq(0, 25)]; for i in 0..24 { v.push(J::Is(i, T::Dyn(i + 1))); v.push(J::Is(25 + i, T::Dyn(26 + i))); } v.push(J::Is(24, w(64, WordUse::SignedNumeric))); v.push(J::Is(49, T::Word(None, WordUse::Numeric))); v }),
         (50, { let mut v = vec![J::Eq(0, 25)]; for i in 0..24 { v.push(J::Is(i, T::Map(i + 1, i + 1))); v.push(J::Is(25 + i, T::Map(26 + i, 26 + i))); } v.push(J::Is(24, w(160, WordUse::Address))); v }),
